@@ -27,7 +27,11 @@ pub fn run(sc: &Value) -> Value {
                 fb(match s(&c[0]).as_str() {
                     "ln" => x.ln(),
                     "exp" => x.exp(),
-                    "pow" => x.powf(y),
+                    // perf/mod.rs squares deviations with the literal `powf(2.0)`; with optimisations on the compiler
+                    // turns that call into a multiplication, whose result can differ from libm's pow(x, 2.0) in the last
+                    // bit. The table has to hold what the code under test computes, so the same expression with the
+                    // same literal is compiled here, in the same profile
+                    "pow" => if y == 2.0 { x.powf(2.0) } else { x.powf(y) },
                     _ => panic!("bad libm fn"),
                 })
             })
